@@ -202,7 +202,7 @@ func TestVerifC05(t *testing.T) {
 	if nshards == 0 {
 		nshards = 1
 	}
-	depth := 3
+	depth := 4
 	if os.Getenv("VERIF_TIER") == "thorough" {
 		depth = 5
 	}
